@@ -148,8 +148,12 @@ func (h *h3) stopNode(i int) error {
 
 // controller returns the server that currently is metadata leader (and knows it), or nil.
 func (h *h3) controller() *simNode {
+	// (evaluated by the driver between steps: reads fields directly, takes no locks)
 	for _, n := range h.nodes {
-		if n.up && n.srv.getRaft() != nil && string(h.cluster.Leader) == n.id && n.srv.getRaft().isLeader() {
+		if !n.up || string(h.cluster.Leader) != n.id {
+			continue
+		}
+		if r, ok := n.srv.raft.Load().(*raftNode); ok && r != nil && r.isLeader() {
 			return n
 		}
 	}
